@@ -1031,3 +1031,55 @@ T("C13", "twin-expansion-divmod-free", (ITT, """    multiplicities = ceil(n_samp
     rest = n_samples % max_sample_size
     new_n_samples = full * (max_sample_size,) + ((rest,) if rest != 0 else ())
     multiplicities = full + (1 if rest != 0 else 0)"""))
+
+# ----------------------------------------------------------------------------- C15
+EST = "estimation/_estimation.py"
+
+B("C15", "swap-index-lists-in-zip", (EST, "        measured_expectation_values_list, indices_to_measure\n    ):", "        measured_expectation_values_list, indices_not_to_measure\n    ):"), rule="C15-D1")
+B("C15", "split-appends-index-to-other-partition", (EST, "            indices_not_to_measure.append(i)\n            estimation_tasks_not_to_measure.append(task)", "            indices_to_measure.append(i)\n            estimation_tasks_not_to_measure.append(task)"), rule="C15-D1")
+B("C15", "split-returns-swapped-index-slots", (EST, "        indices_to_measure,\n        indices_not_to_measure,\n    )\n\n\ndef evaluate_non_measured", "        indices_not_to_measure,\n        indices_to_measure,\n    )\n\n\ndef evaluate_non_measured"), rule="C15-D1")
+B("C15", "split-ignores-zero-shots", (EST, "        if task.operator.is_constant or task.number_of_shots == 0:", "        if task.operator.is_constant:"), rule="C15-D1")
+B("C15", "tasks-sorted-before-running", (EST, "        circuits, operators, shots_per_circuit = zip(", "        estimation_tasks_to_measure = sorted(estimation_tasks_to_measure, key=lambda e: e.number_of_shots)\n        circuits, operators, shots_per_circuit = zip("), rule="C15-D1")
+B("C15", "tasks-reversed-in-unzip", (EST, "                for e in estimation_tasks_to_measure\n            ]", "                for e in reversed(estimation_tasks_to_measure)\n            ]"), rule="C15-D1")
+B("C15", "runner-gets-operators", (EST, "        measurements_list = runner.run_batch_and_measure(circuits, shots_per_circuit)", "        measurements_list = runner.run_batch_and_measure(operators, shots_per_circuit)"), rule="C15-D1")
+B("C15", "measurements-evaluated-against-reversed-operators", (EST, "            for frame_operator, measurements in zip(operators, measurements_list)", "            for frame_operator, measurements in zip(operators[::-1], measurements_list)"), rule="C15-D1")
+B("C15", "not-measured-values-from-measured-list", (EST, "    non_measured_expectation_values_list = evaluate_non_measured_estimation_tasks(\n        estimation_tasks_not_to_measure\n    )", "    non_measured_expectation_values_list = evaluate_non_measured_estimation_tasks(\n        estimation_tasks_to_measure\n    )"), rule="C15-D1")
+B("C15", "allocate-measured-only", (EST, "            len(estimation_tasks_not_to_measure) + len(estimation_tasks_to_measure)", "            len(estimation_tasks_to_measure)"), rule="C15-D2")
+B("C15", "return-reversed", (EST, "    return cast(List[ExpectationValues], full_expectation_values)", "    return cast(List[ExpectationValues], full_expectation_values[::-1])"), rule="C15-D2")
+B("C15", "constant-first-term-only", (EST, "            coefficient = sum(term.coefficient for term in task.operator.terms)", "            coefficient = task.operator.terms[0].coefficient"), rule="C15-D3")
+B("C15", "zero-shot-returns-one", (EST, "                coefficient = 0.0", "                coefficient = 1.0"), rule="C15-D3")
+B("C15", "misclassified-not-refused", (EST, """                raise RuntimeError(
+                    "An EstimationTask required shots but was classified as "
+                    "a non-measured task"
+                )""", "                coefficient = 0.0"), rule="C15-D3")
+B("C15", "binding-takes-shots-from-first-task", (EST, "            number_of_shots=estimation_task.number_of_shots,", "            number_of_shots=estimation_tasks[0].number_of_shots,"), rule="C15-D4")
+B("C15", "binding-with-first-map", (EST, "            circuit=estimation_task.circuit.bind(symbols_map),", "            circuit=estimation_task.circuit.bind(symbols_maps[0]),"), rule="C15-D4")
+B("C15", "binding-cache-by-circuit-id", (EST, """    return [
+        EstimationTask(
+            operator=estimation_task.operator,
+            circuit=estimation_task.circuit.bind(symbols_map),""", """    bound_circuits = {}
+    for estimation_task, symbols_map in zip(estimation_tasks, symbols_maps):
+        if id(estimation_task.circuit) not in bound_circuits:
+            bound_circuits[id(estimation_task.circuit)] = estimation_task.circuit.bind(symbols_map)
+    return [
+        EstimationTask(
+            operator=estimation_task.operator,
+            circuit=bound_circuits[id(estimation_task.circuit)],"""), rule="C15-D4")
+B("C15", "exact-args-swapped", (EST, "            estimation_task.circuit, estimation_task.operator\n        )", "            estimation_task.operator, estimation_task.circuit\n        )"), rule="C15-D5")
+B("C15", "exact-skips-constant-tasks", (EST, "        for estimation_task in estimation_tasks\n    ]\n    return [ExpectationValues(np.asarray([val])) for val in expectation_values_list]", "        for estimation_task in estimation_tasks\n        if not estimation_task.operator.is_constant\n    ]\n    return [ExpectationValues(np.asarray([val])) for val in expectation_values_list]"), rule="C15-D5")
+T("C15", "twin-constant-term-property", (EST, "            coefficient = sum(term.coefficient for term in task.operator.terms)", "            coefficient = task.operator.constant_term"))
+T("C15", "twin-allocate-by-task-count", (EST, "            len(estimation_tasks_not_to_measure) + len(estimation_tasks_to_measure)", "            len(estimation_tasks)"))
+T("C15", "twin-bind-in-local", (EST, """    return [
+        EstimationTask(
+            operator=estimation_task.operator,
+            circuit=estimation_task.circuit.bind(symbols_map),
+            number_of_shots=estimation_task.number_of_shots,
+        )
+        for estimation_task, symbols_map in zip(estimation_tasks, symbols_maps)
+    ]""", """    bound_tasks = []
+    for estimation_task, symbols_map in zip(estimation_tasks, symbols_maps):
+        bound = estimation_task.circuit.bind(symbols_map)
+        bound_tasks.append(
+            EstimationTask(estimation_task.operator, bound, estimation_task.number_of_shots)
+        )
+    return bound_tasks"""))
